@@ -239,6 +239,74 @@ pub fn run_c20(ctx: &mut Ctx) {
     ctx.rule = "accepted programs from the rich generator (fields placed by explicit address / implicit / gap, vftable indices, enums) are rewritten by each applicable rewrite of the listed family — explicit address the field already had; unknown<N> gap -> address on the following field and the reverse; #[size] equal to the natural size; #[index] equal to the natural slot; explicit enum value equal to the implicit one; numbers re-spelt (text path with random bases/separators); type definitions of a module reordered — singly at a random site, at every site, and in random combinations; both builds must be accepted with byte-identical output files. non-trivial = pair (D, D') both accepted with D' != D as ASTs (or as texts for re-spelling); distinct by hash of (D, rewrite list)".into();
     ctx.assumptions.push("the reference layout (refprog::Env::layout) supplies the address a field already has and the natural size; cases where it cannot lay the type out are skipped, not judged".into());
     let seed = ctx.seed;
+    // reordering definitions whose names are "equal" under some looser comparison (case,
+    // leading zeros of a digit run, raw prefix, a trailing underscore): any order of the same
+    // definitions gives the same bytes
+    {
+        let defs: Vec<&str> = vec![
+            "pub type Unk1 { pub a: u32, }",
+            "pub type Unk01 { pub a: u16, pub b: u16, }",
+            "pub type Unk001 { pub a: u8, pub b: u8, pub c: u16, }",
+            "pub type Unk10 { pub u: *const Unk9, pub a: u32, pub b: u32, }",
+            "pub type Unk9 { pub a: u32, }",
+            "pub type unk1 { pub a: u32, }",
+            "pub type UNK1 { pub u: *const unk1, pub a: u32, pub b: u32, }",
+            "pub enum Kind2: u8 { A, }",
+            "pub enum Kind02: u16 { A, }",
+            "pub type Slot7 { vftable { pub fn f(&self); }, }",
+            "pub type Slot007 { vftable { pub fn f(&self); pub fn g(&self); }, }",
+            "pub type Tail_ { pub a: u32, }",
+            "pub type Tail { pub a: u32, }",
+            "#[size(4), align(4)] extern type Ext1;",
+            "#[size(8), align(4)] extern type Ext01;",
+        ];
+        let mut rng = Rng::derive(seed, 0x20DD);
+        let rounds = ctx.tier.pick(40, 400);
+        for ptrw in [4usize, 8] {
+            let build = |order: &[usize]| -> Result<BTreeMap<String, String>, drive::BuildErr> {
+                let text: String = order.iter().map(|k| defs[*k]).collect::<Vec<_>>().join("\n");
+                let m = pyxis::parser::parse_str(&text).expect("C20 name family parses");
+                build_files(&vec![(ItemPath::from("kq_names"), m)], ptrw)
+            };
+            let base_order: Vec<usize> = (0..defs.len()).collect();
+            ctx.eval();
+            let Ok(base) = build(&base_order) else {
+                ctx.inconclusive("the name-family description was rejected".to_string());
+                continue;
+            };
+            for round in 0..rounds {
+                let mut order = base_order.clone();
+                if round == 0 {
+                    order.reverse();
+                } else if round % 3 == 1 {
+                    // a single adjacent swap
+                    let k = rng.below(order.len() - 1);
+                    order.swap(k, k + 1);
+                } else {
+                    for i in (1..order.len()).rev() {
+                        let j = rng.below(i + 1);
+                        order.swap(i, j);
+                    }
+                }
+                ctx.eval();
+                ctx.nontrivial(crate::rng::fnv(format!("names{ptrw}{order:?}").as_bytes()));
+                match build(&order) {
+                    Err(e) => ctx.violation("C20/rewritten-rejected/ReorderDefinitions", &format!("reordered name family rejected: {}", crate::verdict::one_line(&e.msg, 200)), json!({"ptrw": ptrw, "order": order})),
+                    Ok(o) => {
+                        ctx.count("pairs_compared/ReorderDefinitions/similar-names", 1);
+                        if o != base {
+                            ctx.violation(
+                                "C20/output-differs/ReorderDefinitions/similar-names",
+                                &format!("definitions in the order {order:?}: {}", first_diff(&base, &o).unwrap_or_default()),
+                                json!({"ptrw": ptrw, "order": order, "definitions": defs}),
+                            );
+                            break;
+                        }
+                    }
+                }
+            }
+        }
+    }
     let n = ctx.tier.pick(700usize, 12_000);
     struct R {
         evals: u64,
